@@ -26,6 +26,21 @@ func init() {
 		runHistories(r, profile{Hostile: 25, Faults: 30, Attack: 15, Logout: 6, Ticks: 18, OddRequest: true, Histories: scale(r, 60, 1500), Length: 45}, histRule)
 	}
 	checks["C02"] = func(r *Run) {
+		// a refresh that is answered with a forged ID token, interleaved in every way with another check of the same session:
+		// nothing of the unvalidated answer may be visible to the other check (or remain in the session afterwards)
+		n := 0
+		for _, store := range []string{"mem", "redis"} {
+			for _, other := range []string{"app", "refresh"} {
+				c := genCfg(r, false, n)
+				c.Store, c.Access, c.RealKeys = store, true, ""
+				n += exploreSchedules(r, schedScenario{Name: store + "/forged+" + other, Cfg: c, Threads: []string{"forged", other}}, scale(r, 60, 600))
+			}
+		}
+		r.Extra["interleavings_executed"] = n
+		if r.unknownViolations() > 0 {
+			r.Finish("interleavings of a forged refresh answer with a concurrent check of the same session")
+			return
+		}
 		runHistories(r, profile{Hostile: 70, Faults: 3, Attack: 8, Logout: 3, Ticks: 18, Histories: scale(r, 60, 1500), Length: 45}, histRule)
 	}
 	checks["C05"] = func(r *Run) {
